@@ -1185,6 +1185,40 @@ class Gen(object):
             return
         if isinstance(tgt, ast.Subscript):
             base = tgt.value
+            # X[a][b][c] = v   /   X[a][b][:] = row      (depth 3)
+            chain, t = [], tgt
+            while isinstance(t, ast.Subscript):
+                chain.append(t.slice)
+                t = t.value
+            chain.reverse()
+            if isinstance(t, ast.Name) and len(chain) == 3 and not any(isinstance(c, ast.Slice) for c in chain[:2]):
+                rows = [path.env[t.id]]
+                idxs = []
+                for c in chain[:2]:
+                    i = self.expr(c, path)
+                    if is_int(i):
+                        i = z3.simplify(i)
+                    self.index(rows[-1], i, path, line)
+                    nxt = rows[-1].row(i)
+                    if not isinstance(nxt, SList):
+                        raise Unsupported('subscript of a scalar')
+                    idxs.append(i)
+                    rows.append(nxt)
+                last = chain[2]
+                if isinstance(last, ast.Slice):
+                    if not (last.lower is None and last.upper is None and last.step is None and isinstance(val, SList)
+                            and not val.nested()):
+                        raise Unsupported('slice assignment')
+                    new = val
+                else:
+                    j = self.expr(last, path)
+                    if is_int(j):
+                        j = z3.simplify(j)
+                    new = self.store(rows[-1], j, val, path, line)
+                for lvl in (1, 0):
+                    new = rows[lvl].with_row(idxs[lvl], new)
+                path.env[t.id] = new
+                return
             if isinstance(tgt.slice, ast.Slice):
                 s = tgt.slice
                 if s.lower is None and s.upper is None and s.step is None and isinstance(base, ast.Name):
@@ -1272,6 +1306,40 @@ class Gen(object):
             return self._target_names(t.value)
         return []
 
+    def placeholder_fill(self, st, path):
+        """X = [[[None for _ in range(a)] for _ in range(b)] for _ in range(c)]  (1 to 3 levels, innermost element the
+        constant None): a list of the shape given by the ranges whose element type comes from the contract's `locals`
+        declaration and whose cells hold unspecified values (every cell is overwritten before it is read in the
+        functions under contract; a read of a placeholder is simply an unconstrained value, never assumed to be anything)"""
+        if not (len(st.targets) == 1 and isinstance(st.targets[0], ast.Name) and st.targets[0].id in self.c.get('locals', {})):
+            return None
+        dims, n = [], st.value
+        while isinstance(n, ast.ListComp) and len(n.generators) == 1 and not n.generators[0].ifs \
+                and isinstance(n.generators[0].iter, ast.Call) and isinstance(n.generators[0].iter.func, ast.Name) \
+                and n.generators[0].iter.func.id == 'range' and len(n.generators[0].iter.args) == 1:
+            dims.append(n.generators[0].iter.args[0])
+            n = n.elt
+        if not dims or not (isinstance(n, ast.Constant) and n.value is None):
+            return None
+        dims = [self.expr(d, path) for d in reversed(dims)]          # outermost first
+        t = self.c['locals'][st.targets[0].id]
+        depth, tt = 0, t
+        while isinstance(tt, tuple) and tt[0] == 'list':
+            depth += 1
+            tt = tt[1]
+        if depth != len(dims) or depth > 3:
+            raise Unsupported('placeholder list does not match its declared type')
+        l = fresh_list(st.targets[0].id, t[1], fresh(st.targets[0].id + '_len', I))
+        nonneg = lambda d: z3.If(d >= 0, d, z3.IntVal(0))
+        path.hyps.append(atom(l.ln == nonneg(dims[0])))
+        if depth >= 2:
+            q = z3.Int('k?')
+            path.hyps.append(('forall', [q], atom(z3.Select(l.ilen, q) == nonneg(dims[1]))))
+        if depth == 3:
+            q, q2 = z3.Int('k?'), z3.Int('k2?')
+            path.hyps.append(('forall', [q, q2], atom(z3.Select(z3.Select(l.isub, q), q2) == nonneg(dims[2]))))
+        return l
+
     def havoc(self, path, names):
         for v in sorted(names):
             old = path.env.get(v)
@@ -1312,7 +1380,8 @@ class Gen(object):
         if isinstance(st, ast.Pass):
             return [path]
         if isinstance(st, ast.Assign):
-            val = self.expr(st.value, path)
+            ph = self.placeholder_fill(st, path)
+            val = ph if ph is not None else self.expr(st.value, path)
             if len(st.targets) == 1 and isinstance(st.targets[0], ast.Name) and isinstance(val, SList) \
                     and st.targets[0].id in self.c.get('locals', {}) and z3.is_int_value(val.ln) and val.ln.as_long() == 0:
                 # element type of an empty list literal, from the contract's `locals` declaration
